@@ -193,6 +193,36 @@ def flush (t : Tree) : Res Tree :=
     let t := if t.root.needsExpose then { t with root := { t.root with needsExpose := false, damage := [], needsRestore := true } } else t
     pure { t with root := { t.root with needsRestore := false } }
 
+/-! ### which code is being modelled
+
+  Three repairs of `src/window.c` are proposed for this property (fixes/C14_*.patch).  The model follows the code
+  as it is in the working tree: `Gen/WinInputCfg.lean` (extractor) says which of the repairs are present. -/
+
+structure Cfg where
+  /-- `_ref_children` / `_unref_children`: the sibling loops walk a counted snapshot and skip closed children. -/
+  snapshot : Bool
+  /-- `_forget_drag_source`: `_handle_mouse` returns a counted reference; the root's (uncounted) drag source is
+      stored only if it is still in the tree and forgotten when it leaves the tree (`tickit_window_close`);
+      the press memory is initialised by `tickit_window_new_root2`. -/
+  counted : Bool
+  /-- `_is_shown`: the whole parent chain must be visible, on entry and before the window's own handlers. -/
+  shown : Bool
+deriving Repr, DecidableEq, Inhabited
+
+/-- The code as it was when the property was written. -/
+def Cfg.legacy : Cfg := ⟨false, false, false⟩
+def Cfg.repaired : Cfg := ⟨true, true, true⟩
+
+
+/-- After the repair `tickit_window_close(win)` forgets a drag source that is `win` or lies below it.  A drag
+    source is only ever stored while attached to the root and only `close` detaches windows, so this is:
+    a drag source that is no longer attached to the root is forgotten. -/
+def normalizeDrag (cfg : Cfg) (t : Tree) : Tree :=
+  if !cfg.counted then t else
+  match t.root.dragSource with
+  | none => t
+  | some d => if isAlive t d && isWithin t (treeFuel t) 0 d then t else { t with root := { t.root with dragSource := none } }
+
 /-! ### the application's actions -/
 
 /-- The windows below and including `win`, parents before children, front-most child first: the order in which
@@ -205,8 +235,9 @@ def preorder (t : Tree) : Nat → Id → List Id
     | some w => win :: w.children.flatMap (preorder t f)
 
 /-- `tickit_window_unref` with the DESTROY events logged. -/
-def unrefLogged (st : St) (win : Id) : Res St := do
+def unrefLogged (cfg : Cfg) (st : St) (win : Id) : Res St := do
   let t ← WinTree.unref (fun t _ => pure t) (destroyFuel st.tree) st.tree win
+  let t := normalizeDrag cfg t
   let gone := (preorder st.tree (treeFuel st.tree) win).filter fun i => isAlive st.tree i && !isAlive t i
   pure (gone.foldl (fun st i => st.say (.destroyed i)) { st with tree := t })
 
@@ -226,13 +257,13 @@ def allowed (st : St) (a : Action) : Bool :=
     | .raise | .raiseFront | .lower | .lowerBack | .focus => attached t (treeFuel t) a.win
     | _ => true
 
-def doAction (st : St) (a : Action) : Res St :=
+def doAction (cfg : Cfg) (st : St) (a : Action) : Res St :=
   if !allowed st a then pure (st.say (.refused a)) else
   let t := st.tree
   let f := treeFuel t
   match a.act with
-  | .close => do let t ← WinTree.close t f a.win; pure { st with tree := t }
-  | .unref => unrefLogged { st with owned := st.owned.setIfInBounds a.win (st.owned.getD a.win 0 - 1) } a.win
+  | .close => do let t ← WinTree.close t f a.win; pure { st with tree := normalizeDrag cfg t }
+  | .unref => unrefLogged cfg { st with owned := st.owned.setIfInBounds a.win (st.owned.getD a.win 0 - 1) } a.win
   | .keep => do let t ← WinTree.ref t a.win; pure { st with tree := t, owned := st.owned.setIfInBounds a.win (st.owned.getD a.win 0 + 1) }
   | .hide => do let t ← WinTree.hide t f a.win; pure { st with tree := t }
   | .unhide => do let t ← WinTree.show t f a.win; pure { st with tree := t }
@@ -244,30 +275,30 @@ def doAction (st : St) (a : Action) : Res St :=
   | .stealOn => do let t ← modify t a.win (fun w => { w with stealInput := true }); pure { st with tree := t }
   | .stealOff => do let t ← modify t a.win (fun w => { w with stealInput := false }); pure { st with tree := t }
 
-def doActions (st : St) : List Action → Res St
+def doActions (cfg : Cfg) (st : St) : List Action → Res St
   | [] => pure st
   | a :: rest => do
-    let st ← doAction st a
-    doActions st rest
+    let st ← doAction cfg st a
+    doActions cfg st rest
 
 /-! ### `run_events_whilefalse` -/
 
 def entryIndex (b : Binding) : Nat := if b.count < b.entries.length then b.count else b.entries.length - 1
 
 /-- Run the bindings with the given indices into `st.binds` until one claims. -/
-def runBindings (st : St) (kind : Kind) (win : Id) (ev : Ev) : List Nat → Res (St × Bool)
+def runBindings (cfg : Cfg) (st : St) (kind : Kind) (win : Id) (ev : Ev) : List Nat → Res (St × Bool)
   | [] => pure (st, false)
   | bi :: rest =>
     match st.binds[bi]? with
-    | none => runBindings st kind win ev rest
+    | none => runBindings cfg st kind win ev rest
     | some b =>
       let ei := entryIndex b
       let e := b.entries.getD ei { ret := false }
       let st := { st with binds := st.binds.setIfInBounds bi { b with count := b.count + 1 } }
       let st := st.say (.call kind win b.idx ei e.ret ev)
       do
-        let st ← doActions st e.actions
-        if e.ret then pure (st, true) else runBindings st kind win ev rest
+        let st ← doActions cfg st e.actions
+        if e.ret then pure (st, true) else runBindings cfg st kind win ev rest
 
 /-- The indices of the bindings of `win` for `kind`, in binding order. -/
 def bindingsOf (st : St) (kind : Kind) (win : Id) : List Nat :=
@@ -276,23 +307,58 @@ def bindingsOf (st : St) (kind : Kind) (win : Id) : List Nat :=
     | some b => b.win = win && b.kind = kind
     | none => false
 
-def runHandlers (st : St) (kind : Kind) (win : Id) (ev : Ev) : Res (St × Bool) :=
-  runBindings (st.say (.offer kind win ev)) kind win ev (bindingsOf st kind win)
+def runHandlers (cfg : Cfg) (st : St) (kind : Kind) (win : Id) (ev : Ev) : Res (St × Bool) :=
+  runBindings cfg (st.say (.offer kind win ev)) kind win ev (bindingsOf st kind win)
+
+/-- `_is_shown(win)`. -/
+def isShown (t : Tree) : Nat → Id → Res Bool
+  | 0, _ => .ub "parent chain too long"
+  | f + 1, id => do
+    let w ← get t id
+    if !w.isVisible then pure false
+    else match w.parent with
+      | none => pure true
+      | some p => isShown t f p
+
+/-- The test at the top of `_handle_key` / `_handle_mouse`. -/
+def entryVisible (cfg : Cfg) (t : Tree) (win : Id) : Res Bool :=
+  if cfg.shown then isShown t (treeFuel t) win
+  else do
+    let w ← get t win
+    pure w.isVisible
+
+/-- The test in front of the window's own handlers (`_is_shown(win) && run_events_whilefalse(…)`). -/
+def ownVisible (cfg : Cfg) (t : Tree) (win : Id) : Res Bool :=
+  if cfg.shown then isShown t (treeFuel t) win else pure true
+
+/-- `_ref_children`: one reference on every child, front to back. -/
+def refAll (st : St) : List Id → Res St
+  | [] => pure st
+  | c :: cs => do
+    let st ← refWin st c
+    refAll st cs
+
+/-- `_unref_children`. -/
+def unrefAll (cfg : Cfg) (st : St) : List Id → Res St
+  | [] => pure st
+  | c :: cs => do
+    let st ← unrefLogged cfg st c
+    unrefAll cfg st cs
 
 /-! ### `_handle_key` -/
 
 /-- `done: tickit_window_unref(win); return ret;` -/
-def keyDone (st : St) (win : Id) (ret : Bool) : Out (St × Bool) := do
-  let st ← unrefLogged st win
+def keyDone (cfg : Cfg) (st : St) (win : Id) (ret : Bool) : Out (St × Bool) := do
+  let st ← unrefLogged cfg st win
   pure (st, ret)
 
 mutual
 /-- `_handle_key(win, info)`. -/
-def handleKey : Nat → St → Id → Ev → Out (St × Bool)
+def handleKey (cfg : Cfg) : Nat → St → Id → Ev → Out (St × Bool)
   | 0, _, _, _ => .fuel
   | f + 1, st, win, ev => do
-    let w ← get st.tree win
-    if !w.isVisible then pure (st, false) else
+    let vis ← entryVisible cfg st.tree win
+    if !vis then pure (st, false) else
     let st ← refWin st win
     let w ← get st.tree win
     -- if(win->first_child && win->first_child->steal_input) if(_handle_key(win->first_child, info)) goto done;
@@ -300,24 +366,33 @@ def handleKey : Nat → St → Id → Ev → Out (St × Bool)
       | none => (pure (st, false) : Out (St × Bool))
       | some fc => do
         let fw ← get st.tree fc
-        if fw.stealInput then handleKey f st fc ev else pure (st, false)
-    if done then keyDone st win true else
+        if fw.stealInput then handleKey cfg f st fc ev else pure (st, false)
+    if done then keyDone cfg st win true else
     -- if(win->focused_child) if(_handle_key(win->focused_child, info)) goto done;
     let w ← get st.tree win
     let (st, done) ← match w.focusedChild with
       | none => (pure (st, false) : Out (St × Bool))
-      | some fc => handleKey f st fc ev
-    if done then keyDone st win true else
+      | some fc => handleKey cfg f st fc ev
+    if done then keyDone cfg st win true else
     -- if(run_events_whilefalse(win, TICKIT_WINDOW_ON_KEY, info)) goto done;
-    let (st, done) ← runHandlers st .key win ev
-    if done then keyDone st win true else
-    -- for(child = win->first_child; child; child = next) …
+    let own ← ownVisible cfg st.tree win
+    let (st, done) ← if own then (runHandlers cfg st .key win ev : Out (St × Bool)) else pure (st, false)
+    if done then keyDone cfg st win true else
     let w ← get st.tree win
-    let (st, done) ← keyLoop f st win w.children.head? ev
-    keyDone st win done
+    if cfg.snapshot then do
+      -- children = snapshot with a reference each; walk it; drop the references
+      let cs := w.children
+      let st ← refAll st cs
+      let (st, done) ← keySnap cfg f st win cs ev
+      let st ← unrefAll cfg st cs
+      keyDone cfg st win done
+    else do
+      -- for(child = win->first_child; child; child = next) …
+      let (st, done) ← keyLoop cfg f st win w.children.head? ev
+      keyDone cfg st win done
 
-/-- The "other children" loop of `_handle_key`; `child` is the loop variable. -/
-def keyLoop : Nat → St → Id → Option Id → Ev → Out (St × Bool)
+/-- The "other children" loop of `_handle_key` before the repair; `child` is the loop variable. -/
+def keyLoop (cfg : Cfg) : Nat → St → Id → Option Id → Ev → Out (St × Bool)
   | _, st, _, none, _ => pure (st, false)
   | 0, _, _, some _, _ => .fuel
   | f + 1, st, win, some child, ev => do
@@ -326,37 +401,59 @@ def keyLoop : Nat → St → Id → Option Id → Ev → Out (St × Bool)
     else pure ()
     let next ← nextSibling st.tree child          -- next = child->next
     let w ← get st.tree win
-    if w.focusedChild = some child then keyLoop f st win next ev else
-    let (st, done) ← handleKey f st child ev
-    if done then pure (st, true) else keyLoop f st win next ev
+    if w.focusedChild = some child then keyLoop cfg f st win next ev else
+    let (st, done) ← handleKey cfg f st child ev
+    if done then pure (st, true) else keyLoop cfg f st win next ev
 
+/-- The same loop over the counted snapshot (after the repair). -/
+def keySnap (cfg : Cfg) : Nat → St → Id → List Id → Ev → Out (St × Bool)
+  | _, st, _, [], _ => pure (st, false)
+  | 0, _, _, _ :: _, _ => .fuel
+  | f + 1, st, win, child :: rest, ev => do
+    let cw ← get st.tree child
+    if cw.parent ≠ some win then keySnap cfg f st win rest ev else    -- closed by a handler in the meantime
+    let w ← get st.tree win
+    if w.focusedChild = some child then keySnap cfg f st win rest ev else
+    let (st, done) ← handleKey cfg f st child ev
+    if done then pure (st, true) else keySnap cfg f st win rest ev
 end
 
 /-! ### `_handle_mouse` -/
 
 /-- `done: tickit_window_unref(win); return ret;` -/
-def mouseDone (st : St) (win : Id) (ret : Option Id) : Out (St × Option Id) := do
-  let st ← unrefLogged st win
+def mouseDone (cfg : Cfg) (st : St) (win : Id) (ret : Option Id) : Out (St × Option Id) := do
+  let st ← unrefLogged cfg st win
   pure (st, ret)
 
 mutual
-/-- `_handle_mouse(win, info)`: the window that handled the event, or NULL. -/
-def handleMouse : Nat → St → Id → Ev → Out (St × Option Id)
+/-- `_handle_mouse(win, info)`: the window that handled the event, or NULL (a counted reference after the repair). -/
+def handleMouse (cfg : Cfg) : Nat → St → Id → Ev → Out (St × Option Id)
   | 0, _, _, _ => .fuel
   | f + 1, st, win, ev => do
-    let w ← get st.tree win
-    if !w.isVisible then pure (st, none) else
+    let vis ← entryVisible cfg st.tree win
+    if !vis then pure (st, none) else
     let st ← refWin st win
     let w ← get st.tree win
-    let (st, r) ← mouseLoop f st w.children.head? ev
+    let (st, r) ←
+      if cfg.snapshot then do
+        let cs := w.children
+        let st ← refAll st cs
+        let (st, r) ← mouseSnap cfg f st win cs ev
+        let st ← unrefAll cfg st cs
+        (pure (st, r) : Out (St × Option Id))
+      else mouseLoop cfg f st w.children.head? ev
     match r with
-    | some h => mouseDone st win (some h)
+    | some h => mouseDone cfg st win (some h)
     | none => do
-      let (st, done) ← runHandlers st .mouse win ev
-      mouseDone st win (if done then some win else none)
+      let own ← ownVisible cfg st.tree win
+      let (st, done) ← if own then (runHandlers cfg st .mouse win ev : Out (St × Bool)) else pure (st, false)
+      if done then do
+        let st ← if cfg.counted then refWin st win else pure st      -- ret = tickit_window_ref(win)
+        mouseDone cfg st win (some win)
+      else mouseDone cfg st win none
 
-/-- The children loop of `_handle_mouse`. -/
-def mouseLoop : Nat → St → Option Id → Ev → Out (St × Option Id)
+/-- The children loop of `_handle_mouse` before the repair. -/
+def mouseLoop (cfg : Cfg) : Nat → St → Option Id → Ev → Out (St × Option Id)
   | _, st, none, _ => pure (st, none)
   | 0, _, some _, _ => .fuel
   | f + 1, st, some child, ev => do
@@ -368,13 +465,29 @@ def mouseLoop : Nat → St → Option Id → Ev → Out (St × Option Id)
     let cl := ev.line - cw.rect.top
     let cc := ev.col - cw.rect.left
     if !cw.stealInput && (cl < 0 || cl ≥ cw.rect.lines || cc < 0 || cc ≥ cw.rect.cols) then
-      mouseLoop f st next ev
+      mouseLoop cfg f st next ev
     else do
-      let (st, r) ← handleMouse f st child { ev with line := cl, col := cc }
+      let (st, r) ← handleMouse cfg f st child { ev with line := cl, col := cc }
       match r with
       | some h => pure (st, some h)
-      | none => mouseLoop f st next ev
+      | none => mouseLoop cfg f st next ev
 
+/-- The same loop over the counted snapshot (after the repair). -/
+def mouseSnap (cfg : Cfg) : Nat → St → Id → List Id → Ev → Out (St × Option Id)
+  | _, st, _, [], _ => pure (st, none)
+  | 0, _, _, _ :: _, _ => .fuel
+  | f + 1, st, win, child :: rest, ev => do
+    let cw ← get st.tree child
+    if cw.parent ≠ some win then mouseSnap cfg f st win rest ev else    -- closed by a handler in the meantime
+    let cl := ev.line - cw.rect.top
+    let cc := ev.col - cw.rect.left
+    if !cw.stealInput && (cl < 0 || cl ≥ cw.rect.lines || cc < 0 || cc ≥ cw.rect.cols) then
+      mouseSnap cfg f st win rest ev
+    else do
+      let (st, r) ← handleMouse cfg f st child { ev with line := cl, col := cc }
+      match r with
+      | some h => pure (st, some h)
+      | none => mouseSnap cfg f st win rest ev
 end
 
 /-- Fuel that suffices for any dispatch on a store of this size (every level of recursion and every loop
@@ -384,10 +497,37 @@ def routeFuel (t : Tree) : Nat := 4 * (t.wins.size + 2) * (t.wins.size + 2)
 /-! ### `on_term_key`, `on_term_mouse`, and the terminal-level emission -/
 
 /-- `on_term_key`. -/
-def onTermKey (fuel : Nat) (st : St) (ev : Ev) : Out (St × Bool) := handleKey fuel st 0 ev
+def onTermKey (cfg : Cfg) (fuel : Nat) (st : St) (ev : Ev) : Out (St × Bool) := handleKey cfg fuel st 0 ev
+
+/-- Drop the counted reference a `_handle_mouse` call returned (after the repair). -/
+def dropResult (cfg : Cfg) (st : St) (r : Option Id) : Res St :=
+  match r with
+  | some h => if cfg.counted then unrefLogged cfg st h else pure st
+  | none => pure st
+
+/-- What `on_term_mouse` does with the window that claimed DRAG_START: before the repair the (possibly dangling)
+    pointer is stored as it is; after it, it is stored only if the window is still below the root, and the counted
+    reference is dropped (which may destroy the window, and then `close` forgets it again). -/
+def dragSourceSet (cfg : Cfg) (st : St) (src : Option Id) : Res St :=
+  let setSrc (st : St) (v : Option Id) : St := { st with tree := { st.tree with root := { st.tree.root with dragSource := v } } }
+  if !cfg.counted then pure (setSrc st src) else
+  match src with
+  | none => pure (setSrc st none)
+  | some s =>
+    let st := setSrc st (if isWithin st.tree (treeFuel st.tree) 0 s then some s else none)
+    unrefLogged cfg st s
+
+/-- The use of `root->drag_source_window` for DRAG_STOP / DRAG_OUTSIDE: geometry, then dispatch. -/
+def toDragSource (cfg : Cfg) (fuel : Nat) (st : St) (src : Id) (type : Int) (ev : Ev) : Out St := do
+  if !isAlive st.tree src then
+    (.ub s!"on_term_mouse: drag_source_window {src} was freed during the drag (use after free)" : Out Unit)
+  else pure ()
+  let geom ← absGeometry st.tree (treeFuel st.tree) src
+  let (st, r) ← handleMouse cfg fuel st src { type := type, button := ev.button, line := ev.line - geom.top, col := ev.col - geom.left }
+  dropResult cfg st r
 
 /-- `on_term_mouse`. -/
-def onTermMouse (fuel : Nat) (st : St) (ev : Ev) : Out (St × Bool) := do
+def onTermMouse (cfg : Cfg) (fuel : Nat) (st : St) (ev : Ev) : Out (St × Bool) := do
   let root := st.tree.root
   let st ←
     if ev.type = evPress then
@@ -395,56 +535,52 @@ def onTermMouse (fuel : Nat) (st : St) (ev : Ev) : Out (St × Bool) := do
                       tree := { st.tree with root := { root with mouseLastButton := ev.button, mouseLastLine := ev.line, mouseLastCol := ev.col } } } : Out St)
     else if ev.type = evDrag && !root.mouseDragging then do
       if !st.pressSeen then (.ub "on_term_mouse: mouse_last_* read uninitialised (drag before any press)" : Out Unit) else pure ()
-      let (st, src) ← handleMouse fuel st 0 { type := evDragStart, button := root.mouseLastButton, line := root.mouseLastLine, col := root.mouseLastCol }
-      pure { st with tree := { st.tree with root := { st.tree.root with dragSource := src, mouseDragging := true } } }
+      let (st, src) ← handleMouse cfg fuel st 0 { type := evDragStart, button := root.mouseLastButton, line := root.mouseLastLine, col := root.mouseLastCol }
+      let st ← dragSourceSet cfg st src
+      pure { st with tree := { st.tree with root := { st.tree.root with mouseDragging := true } } }
     else if ev.type = evRelease && root.mouseDragging then do
-      let (st, _) ← handleMouse fuel st 0 { type := evDragDrop, button := ev.button, line := ev.line, col := ev.col }
+      let (st, dropped) ← handleMouse cfg fuel st 0 { type := evDragDrop, button := ev.button, line := ev.line, col := ev.col }
+      let st ← dropResult cfg st dropped
       let st ← match st.tree.root.dragSource with
         | none => (pure st : Out St)
-        | some src => do
-          if !isAlive st.tree src then
-            (.ub s!"on_term_mouse: drag_source_window {src} was freed during the drag (use after free)" : Out Unit)
-          else pure ()
-          let geom ← absGeometry st.tree (treeFuel st.tree) src
-          let (st, _) ← handleMouse fuel st src { type := evDragStop, button := ev.button, line := ev.line - geom.top, col := ev.col - geom.left }
-          pure st
+        | some src => toDragSource cfg fuel st src evDragStop ev
+      let st := if cfg.counted then { st with tree := { st.tree with root := { st.tree.root with dragSource := none } } } else st
       pure { st with tree := { st.tree with root := { st.tree.root with mouseDragging := false } } }
     else pure st
-  let (st, handled) ← handleMouse fuel st 0 ev
+  let (st, handled) ← handleMouse cfg fuel st 0 ev
   let st ←
     match st.tree.root.dragSource with
     | some src =>
-      if ev.type = evDrag && handled ≠ some src then do
-        if !isAlive st.tree src then
-          (.ub s!"on_term_mouse: drag_source_window {src} was freed during the drag (use after free)" : Out Unit)
-        else pure ()
-        let geom ← absGeometry st.tree (treeFuel st.tree) src
-        let (st, _) ← handleMouse fuel st src { type := evDragOutside, button := ev.button, line := ev.line - geom.top, col := ev.col - geom.left }
-        pure st
+      if ev.type = evDrag && handled ≠ some src then toDragSource cfg fuel st src evDragOutside ev
       else (pure st : Out St)
     | none => pure st
+  let st ← dropResult cfg st handled
   pure (st, handled.isSome)
 
 /-- `tickit_term_emit_key`: the root window's binding, then the application's own. -/
-def emitKey (st : St) (ev : Ev) : Out St := do
-  let (st, handled) ← onTermKey (routeFuel st.tree) st ev
+def emitKey (cfg : Cfg) (st : St) (ev : Ev) : Out St := do
+  let (st, handled) ← onTermKey cfg (routeFuel st.tree) st ev
   pure (if handled then st else st.say .unhandled)
 
 /-- `tickit_term_emit_mouse`. -/
-def emitMouse (st : St) (ev : Ev) : Out St := do
-  let (st, handled) ← onTermMouse (routeFuel st.tree) st ev
+def emitMouse (cfg : Cfg) (st : St) (ev : Ev) : Out St := do
+  let (st, handled) ← onTermMouse cfg (routeFuel st.tree) st ev
   pure (if handled then st else st.say .unhandled)
 
 /-! ### the other operations of the engine -/
 
-/-- A fresh root window; nothing has been pressed yet. -/
-def newSt0 (lines cols : Int) : St :=
-  { tree := newRoot lines cols, owned := #[1] }
+/-- A fresh root window; before the repair nothing initialises the press memory. -/
+def newSt0 (cfg : Cfg) (lines cols : Int) : St :=
+  let st : St := { tree := newRoot lines cols, owned := #[1] }
+  if cfg.counted then
+    { st with pressSeen := true,
+              tree := { st.tree with root := { st.tree.root with mouseLastButton := 0, mouseLastLine := -1, mouseLastCol := -1 } } }
+  else st
 
 /-- The engine's `new`: a fresh root window followed by one PRESS of button 0 at (-1,-1) while nothing is bound
     (it reaches no handler; it initialises the press memory). -/
-def newSt (lines cols : Int) : St :=
-  let st := newSt0 lines cols
+def newSt (cfg : Cfg) (lines cols : Int) : St :=
+  let st := newSt0 cfg lines cols
   { st with pressSeen := true,
             tree := { st.tree with root := { st.tree.root with mouseLastButton := 0, mouseLastLine := -1, mouseLastCol := -1 } } }
 
